@@ -270,7 +270,8 @@ def sound_export(dumped):
 
 # ----------------------------------------------------------- generators ----
 def rand_text(rng):
-    return rng.choice(['a', 'name', 'päth', 'x y', '日本', '\U0001F600z', 'ÿ', 'z' * 3, 'file.txt', 'A', '￿', 'Zed', ''])
+    return rng.choice(['a', 'name', 'päth', 'x y', '日本', '\U0001F600z', 'ÿ', 'z' * 3, 'file.txt', 'A', '￿', 'Zed', '',
+                       '\ufeffbom', '\ufeff\ufeffbb', 'a\u0301', '\u00e5', 'A\u030a', ' lead', 'trail ', 'tab\t', 'nl\n', '\x00nul', '%41', 'ǅ'])
 
 
 def rand_val(rng, depth=0):
@@ -282,7 +283,7 @@ def rand_val(rng, depth=0):
     if r < 0.24:
         return rand_text(rng)
     if r < 0.34:
-        return rng.choice([b'', b'abc', b'\xff\xfe', b'\xc3\xa4', b'\xed\xa0\x80', bytes(range(20))])
+        return rng.choice([b'', b'abc', b'\xff\xfe', b'\xc3\xa4', b'\xed\xa0\x80', bytes(range(20)), b'\xef\xbb\xbfbom', b'\xff\xfeu\x00'])
     if r < 0.40:
         return rng.choice([True, False])
     if r < 0.45:
@@ -314,7 +315,7 @@ def rand_safe_val(rng, depth=0):
     if r < 0.4:
         return rand_text(rng)
     if r < 0.55:
-        return rng.choice([b'', b'abc', b'\xff\xfe', b'\xed\xa0\x80', bytes(range(20))])
+        return rng.choice([b'', b'abc', b'\xff\xfe', b'\xed\xa0\x80', bytes(range(20)), b'\xef\xbb\xbfbom', b'\xef\xbb\xbf'])
     if r < 0.75:
         return [rand_safe_val(rng, depth + 1) for _ in range(rng.randint(0, 3))]
     return {rand_text(rng): rand_safe_val(rng, depth + 1) for _ in range(rng.randint(0, 3))}
@@ -346,7 +347,7 @@ def valid_meta(rng, extras=True, exotic_types=False):
         size = sum(f['length'] for f in files)
     info['pieces'] = bytes((i * 31 + 7) % 256 for i in range(20 * (-(-size // L))))
     if rng.random() < 0.3:
-        info['private'] = rng.choice([True, False]) if not exotic_types else rng.choice([True, False, 1, 0])
+        info['private'] = rng.choice([True, False]) if not exotic_types else rng.choice([True, False, 1, 0, 2, -1, 255])
     if rng.random() < 0.2:
         info['source'] = 'src'
     md = {'info': info}
